@@ -60,6 +60,8 @@ func c05Vars() map[string]mj.Recipe {
 		"ch":    {T: "chan int", Is: []int64{1, 0, 2}},
 		"chs":   {T: "chan string", Ss: []string{"u", ""}},
 		"rch":   {T: "<-chan int", Is: []int64{6, 0}},
+		"hdr":   mj.RStr("outer-hdr"),
+		"mnan":  {T: "map[float64]string-with-nan"},
 		// functions declared to return interface{}: what counts is the value inside
 		"fz0": {T: "ifunc", I: 0}, "fz1": {T: "ifunc", I: 1}, "fz2": {T: "ifunc", I: 2}, "fz3": {T: "ifunc", I: 3}, "fz4": {T: "ifunc", I: 4},
 		"fz5": {T: "ifunc", I: 5}, "fz6": {T: "ifunc", I: 6}, "fz7": {T: "ifunc", I: 7}, "fz8": {T: "ifunc", I: 8}, "fz9": {T: "ifunc", I: 9},
@@ -112,6 +114,7 @@ var c05Subjects = []c05Subject{
 	{"n_int", false, 0, false, true, false}, {"n_str", false, 0, false, true, false}, {"n_nil", false, 0, false, true, false}, {"n_ptr", false, 0, false, true, false},
 	{"ints", true, 3, false, false, false},
 	{"rch", false, 2, false, false, true},
+	{"mnan", true, 3, true, false, false},
 }
 
 var c05CondVars = []string{"bt", "bf", "i0", "i1", "i8", "u0", "u3", "f0", "f1", "f32", "s0", "s1", "nl", "np", "pu", "us", "nm", "em", "ns", "es", "xs", "e_xs"}
@@ -119,7 +122,8 @@ var c05CondVars = []string{"bt", "bf", "i0", "i1", "i8", "u0", "u3", "f0", "f1",
 func (g *c05Gen) cond(scope []string) *mj.Expr {
 	switch k := g.n(0, 12, "condkind"); {
 	case k == 12:
-		f := fmt.Sprintf("fz%d", g.n(0, 7, "ifuncCond"))
+		// (not fz6, a nil interface{}: header variables are printed, and how nil prints is left open)
+		f := fmt.Sprintf("fz%d", []int{0, 1, 2, 3, 4, 5, 7}[g.n(0, 6, "ifuncCond")])
 		g.labels["cond:result-of-a-function-returning-interface{}"] = true
 		if g.n(0, 3, "ifuncNot") == 0 {
 			return mj.Not(mj.Call(f))
@@ -157,15 +161,27 @@ func (g *c05Gen) cond(scope []string) *mj.Expr {
 func (g *c05Gen) ifChain(depth int, scope []string) *mj.Node {
 	arms := g.n(1, 4, "arms")
 	var first, cur *mj.Node
+	var hdrs []string // variables declared by the headers of earlier links: visible in every later link and in the final else
 	for a := 0; a < arms; a++ {
 		n := &mj.Node{K: "if", E: g.cond(scope)}
-		if g.n(0, 4, "iflet") == 0 {
+		if len(hdrs) > 0 && g.n(0, 1, "condFromEarlierHeader") == 0 {
+			n.E = mj.Var(hdrs[g.n(0, len(hdrs)-1, "earlierHeader")])
+			g.labels["else-if-reads-variable-of-an-earlier-header"] = true
+		}
+		if g.n(0, 3, "iflet") == 0 {
 			name := g.nextTag("h")
+			if g.n(0, 2, "sharedHeaderName") == 0 {
+				name = "hdr" // the same name in several links, and maybe further out: the innermost one counts
+			}
 			n.Hdr = &mj.Node{K: "let", Names: []string{name}, Es: []*mj.Expr{g.cond(scope)}, Decl: true}
 			n.E = mj.Var(name)
+			hdrs = append(hdrs, name)
 			g.labels["if-let-header"] = true
 		}
 		n.Body = append([]*mj.Node{mj.Text(g.nextTag("«A") + "»")}, g.stmts(depth+1, scope)...)
+		for _, h := range hdrs {
+			n.Body = append(n.Body, mj.Text("("+h+":"), mj.Print(mj.Var(h)), mj.Text(")"))
+		}
 		if first == nil {
 			first = n
 		} else {
@@ -178,6 +194,9 @@ func (g *c05Gen) ifChain(depth int, scope []string) *mj.Node {
 	if g.n(0, 1, "haselse") == 0 {
 		cur.HasElse = true
 		cur.Else = append([]*mj.Node{mj.Text(g.nextTag("«E") + "»")}, g.stmts(depth+1, scope)...)
+		for _, h := range hdrs {
+			cur.Else = append(cur.Else, mj.Text("("+h+":"), mj.Print(mj.Var(h)), mj.Text(")"))
+		}
 	}
 	g.labels[fmt.Sprintf("if-arms:%d", arms)] = true
 	return first
